@@ -271,6 +271,8 @@ def verify_add_window_naming():
         fv.add("window-namespace-untouched", lab, p.pc, same_names(p, window, B))
         if o.kind == "raise":
             fv.add("refusal-leaves-names-unchanged", lab, p.pc, same_names(p, self_, A))
+            # "raises and changes nothing": the refused window itself must still accept names afterwards
+            fv.add("refusal-leaves-the-window-as-open-as-it-was", lab, p.pc, ex.getattr(window, "_frozen", p, None)[0][0] == wh["frozen"])
             if p.ghost.get("placement_refused"):
                 continue
             dw, wdw, wal = h["dw"], wh["dw"], wh["al"]
